@@ -37,8 +37,9 @@
 (* text run without leading and trailing whitespace ("" if there is none).     *)
 (* Not in the subset: entity references, CDATA, DOCTYPE, processing            *)
 (* instructions, names with '-' or ':', backslashes in attribute values, a     *)
-(* text run split by a comment or child, characters outside printable ASCII.   *)
-EXTENDS Integers, Sequences, FiniteSets
+(* text run split by a comment or child, control characters other than the     *)
+(* four white space ones (the bytes 0x7F..0xFF are ordinary text characters).  *)
+EXTENDS Integers, Sequences, FiniteSets, IOUtils, Json
 
 \* ---------------------------------------------------------------------------
 \* characters
@@ -52,8 +53,16 @@ Char  == WS \cup Lower \cup Upper \cup Digit \cup Punct          \* printable AS
 
 NameStart == Lower \cup Upper \cup {"_"}
 NameChar  == NameStart \cup Digit \cup {"."}
-TextChar  == Char \ {"<", "&"}
-ValueChar(q) == Char \ {q, "<", "&", "\\"}
+\* The bytes 0x7F..0xFF (DEL, UTF-8 lead and continuation bytes, Latin-1 letters, NBSP ...) are ordinary characters of text,
+\* attribute values and comments: no white space, no markup, no name characters.  They cannot be written portably in a TLA+
+\* string literal; the orchestrator hands a table code -> character for the codes 33..255 in the ndjson file named by the
+\* environment variable XML_BYTES ({"codes": [33, ...], "chars": ["!", ...]}); without it the class is empty.
+ByteTab  == IF "XML_BYTES" \in DOMAIN IOEnv THEN ndJsonDeserialize(IOEnv.XML_BYTES)[1] ELSE [codes |-> <<>>, chars |-> <<>>]
+ChrOf(code) == ByteTab.chars[code - 32]                    \* (the table starts at code 33; checked by XmlDocGen)
+ByteChar == {ByteTab.chars[i] : i \in {j \in DOMAIN ByteTab.chars : ByteTab.codes[j] >= 127}}
+AnyChar   == Char \cup ByteChar
+TextChar  == AnyChar \ {"<", "&"}
+ValueChar(q) == AnyChar \ {q, "<", "&", "\\"}
 DQ == "\""
 SQ == "'"
 
@@ -90,7 +99,7 @@ Node(n, ps, ct, ch) == [name |-> n, props |-> ps, content |-> ct, child |-> ch]
 DocNode(roots) == Node(<<>>, <<>>, <<>>, roots)       \* what readXML returns: an unnamed node holding the root element
 
 IsName(n) == n # <<>> /\ n[1] \in NameStart /\ \A i \in DOMAIN n : n[i] \in NameChar
-IsValue(v) == (\A i \in DOMAIN v : v[i] \in Char \ {"<", "&", "\\"}) /\ ~(DQ \in Chars(v) /\ SQ \in Chars(v))
+IsValue(v) == (\A i \in DOMAIN v : v[i] \in AnyChar \ {"<", "&", "\\"}) /\ ~(DQ \in Chars(v) /\ SQ \in Chars(v))
 IsText(t) == t = <<>> \/ ((\A i \in DOMAIN t : t[i] \in TextChar) /\ t[1] \notin WS /\ t[Len(t)] \notin WS)
 IsProps(ps) == /\ \A i \in DOMAIN ps : IsName(ps[i][1]) /\ IsValue(ps[i][2])
                /\ \A i \in 1..(Len(ps) - 1) : LexLess(ps[i][1], ps[i + 1][1])
@@ -216,12 +225,12 @@ NameEnd(s, i) == IF At(s, i) \in NameChar THEN NameEnd(s, i + 1) ELSE i       \*
 RECURSIVE ValueEnd(_, _, _)
 ValueEnd(s, i, q) ==                        \* index of the closing quote, 0 if the value is not a value of the subset
   LET c == At(s, i) IN
-  IF c = q THEN i ELSE IF c \in Char /\ c \notin {"<", "&", "\\"} THEN ValueEnd(s, i + 1, q) ELSE 0
+  IF c = q THEN i ELSE IF c \in AnyChar /\ c \notin {"<", "&", "\\"} THEN ValueEnd(s, i + 1, q) ELSE 0
 RECURSIVE RunEnd(_, _)
 RunEnd(s, i) == IF i > Len(s) \/ s[i] = "<" THEN i ELSE RunEnd(s, i + 1)        \* end of character data
 RECURSIVE CommentEnd(_, _)
 CommentEnd(s, i) ==                         \* i: first index after the opener "<!--"; result: index after the first "-->" that
-  IF i > Len(s) \/ s[i] \notin Char THEN 0    \* begins at an index >= i; 0 if there is none (or a character outside Char comes first)
+  IF i > Len(s) \/ s[i] \notin AnyChar THEN 0 \* begins at an index >= i; 0 if there is none (or a character outside AnyChar comes first)
   ELSE IF s[i] = "-" /\ At(s, i + 1) = "-" /\ At(s, i + 2) = ">" THEN i + 3
   ELSE CommentEnd(s, i + 1)
 
@@ -365,12 +374,12 @@ Lex(s, i, st, ret, rd) ==
 BeforeNul(s, nul) == LET K == {k \in DOMAIN s : s[k] = nul} IN
                      IF K = {} THEN s ELSE SubSeq(s, 1, (CHOOSE k \in K : \A j \in K : k <= j) - 1)
 LexClass(s, nul)       == "eof-in=" \o Lex(BeforeNul(s, nul), 1, "text", "text", FALSE)
-\* (a second part of the class: does the input, up to the first NUL, hold a character outside printable ASCII and the four
+\* (a second part of the class: does the input, up to the first NUL, hold a control character other than the four
 \*  XML whitespace characters - e.g. the vertical tab and form feed that isspace() accepts and the reader's isWhite() does not)
-OddChar(s) == \E i \in DOMAIN s : s[i] \notin Char
+OddChar(s) == \E i \in DOMAIN s : s[i] \notin AnyChar
 ReaderLexClass(s, nul) == LET b == BeforeNul(s, nul)
                               ctx == Lex(b, 1, "text", "text", TRUE)
-                          IN "eof-in=" \o ctx \o (IF ctx = "text" /\ OddChar(b) THEN ",ctl-or-high-byte" ELSE "")   \* (inputs that end inside a tag / value / comment keep one class)
+                          IN "eof-in=" \o ctx \o (IF ctx = "text" /\ OddChar(b) THEN ",ctl-byte" ELSE "")   \* (inputs that end inside a tag / value / comment keep one class)
 
 \* ---------------------------------------------------------------------------
 \* what a call of readXML may end in, whatever the bytes of the file are
